@@ -12,7 +12,7 @@ from __future__ import annotations
 
 import ast
 
-from ..core import AnalysisError, const_value, norm, walk_own, walk_stmts
+from ..core import regex_call, AnalysisError, const_value, norm, walk_own, walk_stmts
 from ..paths import enum_paths
 from .. import relang
 from . import conv_common as cc
@@ -36,9 +36,11 @@ META = {
 def index_run(ctx, rule):
     repo = ctx.repo
     mod = repo.module("gaftools.cli.index", rule)
+    from ..core import normal
+
     for f in mod.funcs.values():
-        if any(isinstance(n, ast.Call) and norm(n.func).endswith("dump") for n in walk_own(f.node)):
-            return f
+        if any(isinstance(n, ast.Call) and norm(n.func).endswith("dump") for n in walk_own(f.node)) and f.cls is None:
+            return normal(repo, f, keep=lambda callee: any(isinstance(x, ast.Call) and "search" in norm(x.func) for x in ast.walk(callee.node)))
     raise AnalysisError(rule, mod.relpath, "cannot find the function that writes the index (pickle dump)")
 
 
@@ -136,9 +138,11 @@ def r03_2(ctx, run, info):
     n_split = 0
     for d in defs:
         for c in ast.walk(d.value):
-            if isinstance(c, ast.Call) and norm(c.func) == "re.split" and isinstance(c.args[0], ast.Constant):
+            rc = regex_call(run.module, c)
+            if rc is not None and rc[0] == "split" and rc[2]:
                 n_split += 1
-                pat = c.args[0].value
+                pat = rc[1]
+                c = ast.Call(func=c.func, args=[ast.Constant(value=pat)] + rc[2], keywords=[])
                 items = relang.flatten(relang.parse(pat))
                 both = all(relang.matches(items, ch, full=True) for ch in (">", "<"))
                 other = any(relang.matches(items, ch, full=True) for ch in ("s", "1", ":", "-", "_"))
@@ -168,7 +172,10 @@ def r03_3(ctx, run, info):
         raise AnalysisError("R03.3", run.where(), "cannot find the stable->node-list conversion used by the index")
     f, d = conv
     ctx.analysed_func(f)
+    from ..core import normal_loops
+
     m = cc.build(ctx, "R03.3")
+    f = normal_loops(repo, f, keep=lambda callee: callee.qualname == m.search.qualname)
     site = c01.r01_1_filter(ctx, m, f, "R03.3")
     c01.r01_1_search(ctx, m)  # the window handed to the filter comes from the same binary search as in the converter
     # the query columns for a bare contig are the path start / end columns (8, 9)
@@ -197,9 +204,18 @@ def r03_3(ctx, run, info):
     # every path element is converted: the loop over the split path has no filter other than skipping the orientation signs
     outer = [n for n in f.node.body if isinstance(n, ast.For)]
     if outer:
-        conts = [st for st in outer[0].body if isinstance(st, ast.If) and any(isinstance(x, ast.Continue) for x in st.body)]
-        ok = len(conts) == 1 and set(c.value for c in ast.walk(conts[0].test) if isinstance(c, ast.Constant)) == {">", "<"}
-        ctx.check(ok, "R03.3", f.where(outer[0]), "every interval of a stable path is converted (only the orientation signs are skipped)", key_of(f, "interval-loop-filter"))
+        # element filters of the loops over the split path: `if <test>: continue` guards and `if <test>: keep.append(x)` filters
+        filt = []
+        for lp in outer:
+            for st in lp.body:
+                if isinstance(st, ast.If) and not any(x is site.loop for x in ast.walk(st)):
+                    skips = any(isinstance(x, (ast.Continue, ast.Break)) for x in ast.walk(st))
+                    keeps = len(st.body) == 1 and isinstance(st.body[0], ast.Expr) and isinstance(st.body[0].value, ast.Call) and isinstance(st.body[0].value.func, ast.Attribute) and st.body[0].value.func.attr == "append" and not st.orelse
+                    if skips or keeps:
+                        filt.append(st)
+        consts = [set(c.value for c in ast.walk(st.test) if isinstance(c, ast.Constant)) for st in filt]
+        ok = bool(filt) and all(cs == {">", "<"} for cs in consts)
+        ctx.check(ok, "R03.3", f.where(outer[0]), "every interval of a stable path is converted (only the orientation signs are skipped)", key_of(f, f"interval-loop-filter:{[sorted(map(str, cs)) for cs in consts]}"))
 
 
 def r03_4(ctx, run):
@@ -236,7 +252,18 @@ def r03_7(ctx):
     for st in sorted_defs:
         key = [k.value for k in st.value.keywords if k.arg == "key"]
         rev = [k for k in st.value.keywords if k.arg == "reverse"]
-        if key and isinstance(key[0], ast.Lambda) and norm(key[0].body).startswith("int(") and "tags['SO'][1]" in norm(key[0].body) and not rev:
+        kbody = None
+        if key and isinstance(key[0], ast.Lambda):
+            kbody = norm(key[0].body)
+        elif key:
+            kf = repo.resolve_callable(gp, key[0])
+            if kf is not None:
+                kr = [r for r in walk_own(kf.node) if isinstance(r, ast.Return) and r.value is not None]
+                if len(kr) == 1:
+                    from ..core import resolve_expr
+
+                    kbody = resolve_expr(kf.node, kr[0].value)
+        if kbody is not None and kbody.startswith("int(") and "tags['SO'][1]" in kbody and not rev:
             ok_sort = True
             svar = norm(st.targets[0])
     rets = [r for r in walk_own(gp.node) if isinstance(r, ast.Return) and r.value is not None]
@@ -247,12 +274,18 @@ def r03_7(ctx):
         if f.module.name not in ("gaftools.cli.index", "gaftools.cli.view"):
             continue
         for st in walk_own(f.node):
-            if isinstance(st, ast.Expr) and isinstance(st.value, ast.Call) and isinstance(st.value.func, ast.Attribute) and st.value.func.attr == "append" and isinstance(st.value.func.value, ast.Subscript) and norm(st.value.func.value.value) == "reference":
-                n += 1
+            if isinstance(st, ast.Expr) and isinstance(st.value, ast.Call) and isinstance(st.value.func, ast.Attribute) and st.value.func.attr == "append" and isinstance(st.value.func.value, ast.Subscript) and st.value.args and isinstance(st.value.args[0], ast.Subscript):
                 loop = None
                 for l in walk_own(f.node):
                     if isinstance(l, ast.For) and any(x is st for x in l.body):
                         loop = l
+                # X[contig].append(G[node]) with node the variable of the enclosing loop and contig that of an outer loop
+                if loop is None or norm(st.value.args[0].slice) != norm(loop.target):
+                    continue
+                outer = [l for l in walk_own(f.node) if isinstance(l, ast.For) and l is not loop and any(x is loop for x in ast.walk(l)) and norm(l.target) == norm(st.value.func.value.slice)]
+                if not outer:
+                    continue
+                n += 1
                 src = None
                 if loop is not None:
                     it = loop.iter
@@ -279,12 +312,15 @@ def r03_5(ctx, run, info):
             h = repo.resolve_call(run, n.slice)
             if h is not None:
                 rets = [r for r in walk_own(h.node) if isinstance(r, ast.Return) and isinstance(r.value, ast.Tuple)]
-                if len(rets) == 1 and len(h.params) == len(n.slice.args) == 1:
+                hp = [p_ for p_ in h.params if p_ != "self"]
+                if len(rets) == 1 and len(hp) == len(n.slice.args) == 1:
                     import copy
                     import re as _re
 
-                    src = norm(rets[0].value)
-                    src = _re.sub(rf"(?<![\w.]){_re.escape(h.params[0])}(?![\w])", norm(n.slice.args[0]), src)
+                    from ..core import resolve_expr
+
+                    src = resolve_expr(h.node, rets[0].value)
+                    src = _re.sub(rf"(?<![\w.]){_re.escape(hp[0])}(?![\w])", norm(n.slice.args[0]), src)
                     keys.append(ast.parse(src, mode="eval").body)
     ctx.require_count("R03.5", len(keys), 2, run.where(sl), "index key tuples in the writer")
     for k in keys:
